@@ -135,7 +135,7 @@ def run(run, h):
         view.merchant_msg("pay token ch%d" % ci, "Sig", token)
         ready = h.call("inactive_activate", inactive, token, M.cconfig)[1]
         chans.append({"ci": ci, "ready": ready, "n": 0, "plan": plan if plan is not None else [cb, -3]})
-    npay = (3 if run.tier == "quick" else 6) * nch
+    npay = (5 if run.tier == "quick" else 12) * nch      # at least ten payments in one process: state kept across calls shows late
     for pi in range(npay):
         ch = rng.choice(chans)
         ci = ch["ci"]
